@@ -458,6 +458,9 @@ class Interp:
                 if x != ONE and y[0] == "dim" and len(y[1]) == 3:
                     slot = y[1][2]
                     break
+                if x != ONE and y[0] == "flat" and y[1] and y[1][0][0] == "dim" and len(y[1][0][1]) == 3:
+                    slot = y[1][0][1][2]
+                    break
             hist.append(("mul" if opn == "Mult" else opn, other.content[2], other.content[1], slot) + tuple(other.history))
         elif other.content is not None:
             hist.append((opn, other.content))
